@@ -33,7 +33,15 @@ def run_mutant(prop: str, repo: Path, mut: dict, seed: int = 0):
         mod = importlib.import_module(f"rules.{prop.lower()}")
         mod.run(ctx)
     except core.AnalysisError as e:
+        fired = [o for o in ctx.failures() if o.rule == mut["rule"] or mut["rule"] == "*"]
+        if fired:
+            return ("fired", [f"{o.rule} {o.construct}" for o in fired[:3]])
         return ("analysis-error", [str(e)])
+    except Exception as e:
+        fired = [o for o in ctx.failures() if o.rule == mut["rule"] or mut["rule"] == "*"]
+        if fired:
+            return ("fired", [f"{o.rule} {o.construct}" for o in fired[:3]])
+        return ("analysis-error", [f"{type(e).__name__}: {e}"])
     fired = [o for o in ctx.failures() if o.rule == mut["rule"] or mut["rule"] == "*"]
     known = {f"{k['property']}|{k['rule']}|{k['construct']}" for k in core.load_known() if k.get("status") == "open"}
     fired = [o for o in fired if core.finding_key(prop, o) not in known]
@@ -50,6 +58,7 @@ def run(prop: str, repo: Path, seed: int, jobs: int = 1) -> dict:
         verdict, info = run_mutant(prop, repo, mut, seed)
         if verdict == "stale":
             stale += 1
+            log.append(f"  stale (old text not in the current source): {mut['id']}")
         elif verdict == "fired":
             fired += 1
         elif verdict == "analysis-error" and mut.get("accept_analysis_error"):
